@@ -2,13 +2,16 @@ package rules
 
 import (
 	"fmt"
+	"go/types"
 	"sort"
 	"strings"
 
 	"golang.org/x/tools/go/packages"
 
+	"ledgerlint/internal/astx"
 	"ledgerlint/internal/bunq"
 	"ledgerlint/internal/core"
+	"ledgerlint/internal/load"
 	"ledgerlint/internal/sqlfe"
 )
 
@@ -149,6 +152,9 @@ func tableWriters(c *core.Ctx) []Writer {
 				if _, known := sqlExecutors[strings.TrimPrefix(origin, "go:")]; known {
 					continue
 				}
+				if execAllowedByCallers(c, load.FuncObj(e.Pkg, e.Encl), 0) {
+					continue
+				}
 				out = append(out, Writer{Kind: "raw", Origin: origin, Pos: at, Opaque: "SQL text of direct Exec/Query call is not a constant"})
 				continue
 			}
@@ -255,4 +261,31 @@ func opaqueWriters(ws []Writer) []Writer {
 		}
 	}
 	return out
+}
+
+// execAllowedByCallers: an unexported helper that executes SQL text it is handed, all of whose
+// callers are listed executors (a piece of AddLedger moved into a function), is covered by the
+// same front-end as they are.
+func execAllowedByCallers(c *core.Ctx, f *types.Func, depth int) bool {
+	if f == nil || f.Exported() || depth > 2 {
+		return false
+	}
+	n := 0
+	for _, s := range index(c).SitesOf(f) {
+		if s.Encl == nil || strings.HasSuffix(c.Prog().Rel(s.Call.Pos()), "_test.go") {
+			continue
+		}
+		n++
+		caller := load.FuncObj(s.Pkg, s.Encl)
+		if caller == nil {
+			return false
+		}
+		if _, ok := sqlExecutors[astx.FuncKey(caller)]; ok {
+			continue
+		}
+		if !execAllowedByCallers(c, caller, depth+1) {
+			return false
+		}
+	}
+	return n > 0
 }
